@@ -10,6 +10,10 @@ import LA.Drive.ReadObs
 import LA.Drive.Pm
 import LA.Drive.Match
 import LA.Drive.SafeWrite
+import LA.Drive.Enc
+import LA.Drive.Trad
+import LA.Drive.Pass
+import LA.Drive.ZipEnc
 open LA
 
 def engines : List (String × Engine) := [
@@ -22,7 +26,11 @@ def engines : List (String × Engine) := [
   ("pm", LA.Pm.engine),
   ("match", LA.Match.engine),
   ("safe", LA.SafeWrite.engine),
-  ("safeorc", LA.SafeWrite.oracleEngine)
+  ("safeorc", LA.SafeWrite.oracleEngine),
+  ("enc", LA.EncDrive.engine),
+  ("trad", LA.TradDrive.engine),
+  ("pass", LA.PassDrive.engine),
+  ("zipenc", LA.ZipEncDrive.engine)
 ]
 
 partial def loop (e : Engine) (h : IO.FS.Stream) (out : IO.FS.Stream) (s : e.σ) : IO Unit := do
